@@ -225,6 +225,7 @@ CFG = {
         "C01": {
             "level": "other",
             "explanation": "Nearest-binding lookup rests on two index calculations: the run-time environment list (rc_list: Verus, unbounded, see O-C01-env) and the compile-time numbering (Compiler::var for imported / global variables, binds for arguments: Kani, bounded). Paper lemma (not machine-checked): var numbering + list semantics + 'every cons_* prepends exactly one binding' => a variable denotes its lexically nearest binding.",
+            "assumptions": ["Verus unit: one assume_specification - `<Rc<T> as From<T>>::from(t)` returns an Rc whose content is t (std is not verified)", "Verus / Z3 and the token-checked extractor (lib/verusrun.py) are trusted for O-C01-env"],
             "not_decided": "evaluation order of compound filters (cartesian, pipe, ObjSingle, Path::combinations), bind_vars / bind_pat ordering, closures capturing the right Ctx, tail calls being invisible, live local binders in Compiler::var (BTreeMap), anything about outputs of actual programs",
         },
         "C14": {
